@@ -229,6 +229,17 @@ pub fn eval_c15_real(case: &Case) -> Outcome {
     c15_eval(case, true)
 }
 
+pub fn eval_c08_seq_fault(case: &Case) -> Outcome {
+    let h = crate::seq::run_seq(case);
+    let fired = crate::hooks::fault_fired();
+    let verdict = panic_guard(&h).and_then(|_| oracle::c08_exactly_once_ownership(&h));
+    let mut classes = vec![kind_class(case.kind)];
+    if fired {
+        classes.push("fault-fired");
+    }
+    outcome(&h, verdict, fired, classes)
+}
+
 pub fn eval_c08_real(case: &Case) -> Outcome {
     let h = crate::real::run_real(case);
     let verdict = panic_guard(&h).and_then(|_| oracle::c08_exactly_once_ownership(&h));
@@ -529,6 +540,18 @@ pub fn check(ctx: &mut Ctx) -> Option<Meta> {
                 run: &eval_c08_seq,
                 rule: rule.clone(),
             });
+            let mut cfg_f = cfg_c08(thorough);
+            cfg_f.w_drain_composite = 3;
+            cfg_f.end_with_drain = true;
+            cfg_f.end_drain_composite = true;
+            cfg_f.fault_sites = vec![FaultSite::Closure, FaultSite::Closure, FaultSite::ProbeNext];
+            ctx.run_campaign(&Campaign {
+                name: "seq-ledger-after-panic".into(),
+                cases: scale_cases(ctx, 40_000, 30),
+                make_strategy: &|| case_strategy(&cfg_f),
+                run: &eval_c08_seq_fault,
+                rule: "the same ledger oracle when a for_each / fold closure or the wrapped iterator panics at a generated point (the panic unwinds through a live chunk)".into(),
+            });
             let mut cfg_r = cfg_c08(thorough);
             cfg_r.min_threads = 2;
             cfg_r.layouts = vec![Layout::Tracked];
@@ -597,6 +620,7 @@ pub fn check(ctx: &mut Ctx) -> Option<Meta> {
             cfg.w_drain_composite = 1;
             cfg.terminal_mode = 2;
             cfg.extra_cap = true;
+            cfg.min_chunk = 0;
             cfg.layouts = vec![Layout::Tracked, Layout::Tracked, Layout::Zst];
             let rule = "ordinary sequential histories over all kinds (chunk sizes <= len+3) executed by two builds of the crate and the harness (debug-assertions + overflow-checks on / both off, same optimisation level) in separate processes; oracle: the transcripts (every result, panics, process aborts, destructor ledger, 'allocation balance is zero') are identical; non-trivial = the history contains a chunk pull or ends a consuming iterator; distinct by case hash".to_string();
             ctx.run_campaign(&Campaign {
@@ -627,6 +651,8 @@ pub fn check(ctx: &mut Ctx) -> Option<Meta> {
             cfg.w_bufnext = 6;
             cfg.w_drain_composite = 1;
             cfg.terminal_mode = 2;
+            cfg.pre_pulls = true;
+            cfg.max_ops = 9;
             let rule = "E2 lock-step: every cloned()/copied() adaptor kind (over slice, Vec, array and a wrapped iterator of references with exact/inexact/unbounded hints) and its underlying reference-yielding iterator are built over the same data and driven by the same generated operation list incl. into_seq_iter; oracle: operation by operation equal indices, chunk boundaries, len() trajectories, try_get_len / has_more, end and skip behaviour, items are owned clones of the same elements, source intact, clone ledger balanced; non-trivial = history contains a one-shot chunk, a buffered chunk, a length query and a skip or into_seq_iter".to_string();
             ctx.run_campaign(&Campaign {
                 name: "seq-lockstep".into(),
@@ -729,6 +755,7 @@ pub fn eval_for(prop: &str, engine: &str) -> Option<fn(&Case) -> Outcome> {
         ("C10", _) => Some(eval_c10_seq),
         ("C08", "seq") => Some(eval_c08_seq),
         ("C08", "real") => Some(eval_c08_real),
+        ("C08", "seqfault") => Some(eval_c08_seq_fault),
         ("C15", "real") => Some(eval_c15_real),
         ("C16", _) => Some(crate::c16::eval_c16),
         ("C14", _) => Some(eval_c14_seq),
